@@ -150,6 +150,31 @@ pub enum CErr {
     Custom { id: String },
 }
 
+/// An error type generic over a parameter of the contract (the parameter occurs only here).
+#[derive(Debug)]
+pub struct GenErr<T>(pub StdError, pub std::marker::PhantomData<T>);
+impl<T> std::fmt::Display for GenErr<T> {
+    fn fmt(&self, f: &mut std::fmt::Formatter<'_>) -> std::fmt::Result {
+        self.0.fmt(f)
+    }
+}
+impl<T: std::fmt::Debug> std::error::Error for GenErr<T> {}
+impl<T> From<StdError> for GenErr<T> {
+    fn from(e: StdError) -> Self {
+        GenErr(e, std::marker::PhantomData)
+    }
+}
+impl<T> From<GenErr<T>> for StdError {
+    fn from(e: GenErr<T>) -> Self {
+        e.0
+    }
+}
+impl<T> From<GenErr<T>> for CErr {
+    fn from(e: GenErr<T>) -> Self {
+        CErr::Std(e.0)
+    }
+}
+
 /// Can a value of the chain-custom message type be fabricated (for `CosmosMsg::Custom`)?
 pub trait MkCustom: Sized {
     fn mk_custom(n: u32) -> Self;
